@@ -373,5 +373,6 @@ pub fn run(env: &Env) -> i32 {
 
     rep.campaign("op-docs", env.cases(60_000, 1_000_000), (0, 500), op_case);
     rep.campaign("ts-docs", env.cases(60_000, 1_000_000), (0, 500), ts_case);
+    rep.merge_fuzz_summary();
     rep.finish()
 }
